@@ -37,6 +37,18 @@ fn run_scenario(line: &str) -> Vec<String> {
     for r in &l[1..] {
         let r = r.list();
         let mode = r[0].atom().to_string();
+        if mode == "sus" {
+            // (sus MODE AVIEW (G ...)): one of the suspense renders of suspense.rs inside a sequence
+            let res = panic::catch_unwind(AssertUnwindSafe(|| suspense::run_one(r[1].atom(), &r[2], &r[3])));
+            match res {
+                Ok((lines, n)) => out.push(format!("{} n={}", lines.join("|").replace(' ', "_"), n)),
+                Err(_) => {
+                    out.push("PANIC".to_string());
+                    break;
+                }
+            }
+            continue;
+        }
         let sig_spec = r[1].clone();
         let view = parse_view(&r[2]);
         let res = panic::catch_unwind(AssertUnwindSafe(|| match mode.as_str() {
